@@ -1,1 +1,355 @@
-/-! Property theorems for C13 (statements + proofs by reference to `Proof/`). Not built yet. -/
+import GraafVerif.Proof.ChkTraversal
+import GraafVerif.Proof.ChkDerived
+import GraafVerif.Proof.ChkMatrix
+import GraafVerif.Proof.ChkPredTree
+import GraafVerif.Proof.ChkReprB
+import GraafVerif.Proof.ChkReprC
+import GraafVerif.Proof.ChkUnionLinear
+import GraafVerif.Proof.ChkFindPartition
+import GraafVerif.Proof.ChkAlgo
+import GraafVerif.Proof.ChkJohnson
+/-!
+# C13 — the safe API is memory-safe and leak-free for every argument  (claim level: PARTIAL)
+
+A theorem cannot observe an allocator.  What is decided here is the logic memory safety of this
+code reduces to: every index the code passes to an unchecked access (`ptr.add(i)`,
+`get_unchecked(i)`) is in bounds **for every argument**, every `unwrap_unchecked` is on a `Some`,
+every `ptr::read` out of a `ManuallyDrop` vector happens exactly once per element, `set_len(n)` is
+followed by exactly `n` writes.  The models are the `Chk` models of `Model/Chk*.lean`
+(`rd`/`wr`/`chkIdx`/`chkSome` yield `.error (.ub site)` when the precondition is false);
+`NoUB x` = `x` is not such an error.  Heap growth, use-after-free through `std`, data races and
+the faithfulness of the models are exercised by the tie only (ASan / counting allocator / Miri
+runs of the real code, site inventory), see docs/C13.md.
+-/
+namespace GraafVerif.C13
+open GraafVerif.Chk
+
+/-- States an iterator can be in: produced by `new`, then any number of `next` calls. -/
+inductive Reachable {σ ι : Type} (new : Chk σ) (next : σ → Chk (Option ι × σ)) : σ → Prop
+  | init {st} : new = .ok st → Reachable new next st
+  | step {st o st'} : Reachable new next st → next st = .ok (o, st') → Reachable new next st'
+
+/-- An iterator (constructor + `next`) never reaches a violated unchecked access, whatever the
+digraph view, the sources and the number of `next` calls. -/
+def IterSafe {σ ι : Type} (new : Chk σ) (next : σ → Chk (Option ι × σ)) : Prop :=
+  NoUB new ∧ ∀ st, Reachable new next st → NoUB (next st)
+
+/-! ## P0: the nine traversal constructors and `next`
+
+`g.out` is an arbitrary function: successors may be any numbers (as in a non-contiguous
+`AdjacencyMap`), `g.out u = none` models the panic of `out_neighbors(u)`; `sources` is any list. -/
+
+theorem bfs_noUB (g : CGraph) (sources : List Nat) : IterSafe (bfsNew g.order sources) (bfsNext g) := by
+  unfold bfsNew bfsNext
+  exact ⟨(bfsNewG_spec _ id id (fun _ => rfl) _ _).1, fun st _ => (bfsNextG_spec _ id _ (fun _ _ => rfl) g st).1⟩
+
+theorem bfsDist_noUB (g : CGraph) (sources : List Nat) : IterSafe (bfsDistNew g.order sources) (bfsDistNext g) := by
+  unfold bfsDistNew bfsDistNext
+  exact ⟨(bfsNewG_spec _ (·.1) _ (fun _ => rfl) _ _).1, fun st _ => (bfsNextG_spec _ (·.1) _ (fun _ _ => rfl) g st).1⟩
+
+theorem bfsPred_noUB (g : CGraph) (sources : List Nat) : IterSafe (bfsPredNew g.order sources) (bfsPredNext g) := by
+  unfold bfsPredNew bfsPredNext
+  exact ⟨(bfsNewG_spec _ (·.2) _ (fun _ => rfl) _ _).1, fun st _ => (bfsNextG_spec _ (·.2) _ (fun _ _ => rfl) g st).1⟩
+
+/-- The breadth-first `next` needs no invariant at all: it is safe in EVERY state. -/
+theorem bfsNext_noUB_any (g : CGraph) (st : QSt Nat) : NoUB (bfsNext g st) := by
+  unfold bfsNext
+  exact (bfsNextG_spec _ id _ (fun _ _ => rfl) g st).1
+
+theorem dfs_noUB (g : CGraph) (sources : List Nat) :
+    IterSafe (pure (dfsNew g.order sources)) (dfsNext g) := by
+  unfold dfsNew dfsNext
+  exact ⟨noUB_pure _, fun st _ => (dfsNextG_spec _ id _ g st).1⟩
+
+theorem dfsDist_noUB (g : CGraph) (sources : List Nat) :
+    IterSafe (pure (dfsDistNew g.order sources)) (dfsDistNext g) := by
+  unfold dfsDistNew dfsDistNext
+  exact ⟨noUB_pure _, fun st _ => (dfsNextG_spec _ (·.1) _ g st).1⟩
+
+theorem dfsPred_noUB (g : CGraph) (sources : List Nat) :
+    IterSafe (pure (dfsPredNew g.order sources)) (dfsPredNext g) := by
+  unfold dfsPredNew dfsPredNext
+  exact ⟨noUB_pure _, fun st _ => (dfsNextG_spec _ (·.2) _ g st).1⟩
+
+/-- Dijkstra's `next` reads `dist[u]` for a popped `u` WITHOUT a check: safe because every heap
+entry was checked when it was pushed (`HInv`), which `new` establishes and `next` preserves. -/
+theorem dij_iterSafe {ι : Type} (site₁ site₂ : String) (better : ι → ι → Bool) (key vtx : ι → Nat) (mk0 : Nat → ι)
+    (mk : ι → Nat → Nat → ι) (h0 : ∀ u, vtx (mk0 u) = u) (hmk : ∀ it v w, vtx (mk it v w) = v)
+    (g : WCGraph) (sources : List Nat) :
+    IterSafe (dijNewG site₁ mk0 g.order sources) (dijNextG site₂ better key vtx mk g) := by
+  refine ⟨(dijNewG_spec site₁ vtx mk0 h0 _ _).1, ?_⟩
+  have inv : ∀ st, Reachable (dijNewG site₁ mk0 g.order sources) (dijNextG site₂ better key vtx mk g) st →
+      HInv vtx g.order st := by
+    intro st hr
+    induction hr with
+    | init h => exact (dijNewG_spec site₁ vtx mk0 h0 _ _).2 _ h
+    | step _ hn ih => exact ((dijNextG_spec site₂ better key vtx mk hmk g _ _ ih).2 _ _ hn).1
+  intro st hr
+  exact (dijNextG_spec site₂ better key vtx mk hmk g _ st (inv st hr)).1
+
+theorem dijkstra_noUB (g : WCGraph) (sources : List Nat) : IterSafe (dijkstraNew g.order sources) (dijkstraNext g) := by
+  unfold dijkstraNew dijkstraNext
+  exact dij_iterSafe (ι := Nat × Nat) _ _ _ _ (·.2) _ _ (fun _ => rfl) (fun _ _ _ => rfl) g sources
+
+theorem dijkstraDist_noUB (g : WCGraph) (sources : List Nat) :
+    IterSafe (dijkstraDistNew g.order sources) (dijkstraDistNext g) := by
+  unfold dijkstraDistNew dijkstraDistNext
+  exact dij_iterSafe (ι := Nat × Nat) _ _ _ _ (·.2) _ _ (fun _ => rfl) (fun _ _ _ => rfl) g sources
+
+theorem dijkstraPred_noUB (g : WCGraph) (sources : List Nat) :
+    IterSafe (dijkstraPredNew g.order sources) (dijkstraPredNext g) := by
+  unfold dijkstraPredNew dijkstraPredNext
+  exact dij_iterSafe (ι := Nat × Option Nat × Nat) _ _ _ _ (·.2.2) _ _ (fun _ => rfl) (fun _ _ _ => rfl) g sources
+
+/-! ### Non-vacuity and the defect on the model side
+
+A digraph whose successor exceeds the order (`V = {0, 5}`, arc `0 → 5`, order 2): the repaired
+code panics, it does not return and it does not reach UB; an out-of-range source likewise.
+The code as pinned reaches `ub` on `Bfs::new(&empty(3), once(1000))`. -/
+
+def gNonContiguous : CGraph := ⟨2, fun u => if u == 0 then some [5] else if u == 5 then some [] else none⟩
+
+example : (bfsNew 2 [0] >>= bfsNext gNonContiguous) = .error .panic := by decide
+example : bfsNew 3 [1000] = .error .panic := by decide
+example : bfsNewPinned 3 [1000] = .error (.ub "bfs.rs:new:*visited_ptr.add(u) (pinned)") := by decide
+example : (bfsNew 3 [0, 2]).toOption.map (·.queue) = some [0, 2] := by decide
+example : dfsNext gNonContiguous (dfsNew 2 [0]) = .error .panic := by decide   -- successor 5 ≥ order 2
+example : dfsNext gNonContiguous (dfsNew 2 [5]) = .error .panic := by decide   -- source 5 ≥ order 2
+example : (dfsNext gNonContiguous (dfsNew 2 [1])) = .error .panic := by decide -- 1 < order, not a vertex
+
+/-! ## P0: `PredecessorTree::search_by` for EVERY predecessor vector
+
+After the fix the function has no unchecked access; its `Chk` transcription never reaches UB and
+agrees with the functional model of C19 (`f_ok` form).  The pinned code reaches `ub` on the
+witness `pred = [Some(7), None]`, `search(0, 1)`. -/
+
+theorem searchBy_noUB (pred : PredTree.Pred) (s : Nat) (isT : Nat → Option Nat → Bool) :
+    NoUB (searchByChk pred s isT) := searchByChk_noUB pred s isT
+
+theorem searchBy_ok (pred : PredTree.Pred) (s : Nat) (isT : Nat → Option Nat → Bool) :
+    searchByChk pred s isT = liftRes (PredTree.searchBy pred s isT) := searchByChk_eq pred s isT
+
+example : searchByChk [some 7, none] 0 (fun v _ => v == 1) = .ok none := by decide
+example : searchByPinned [some 7, none] 0 (fun v _ => v == 1)
+    = .error (.ub "predecessor_tree.rs:search_by:visited_ptr.add(v) (pinned)") := by decide
+example : searchByChk [some 1, none] 2 (fun v _ => v == 1) = .error .panic := by decide
+
+/-! ## P0: `AdjacencyMatrix::{empty, add_arc, toggle, has_arc, remove_arc}` index arithmetic
+
+`MxInv m`: `0 < order`, `order² < 2^64`, `blocks.len() = ceil(order²/64)`.  `empty` establishes it
+for every `order` (or panics: zero / `checked_mul` overflow); every operation keeps it; under it
+`i >> 6 < blocks.len()` for all `u, v < order`, and what is not `< order` is rejected by an assert
+(`add_arc`, `toggle`) or answered `false` (`has_arc`, `remove_arc`) before any index is formed. -/
+
+theorem mxEmpty_noUB (order : Nat) : NoUB (mxEmpty order) ∧ ∀ m, mxEmpty order = .ok m → MxInv m ∧ m.order = order :=
+  mxEmpty_spec order
+
+theorem mxAddArc_noUB (m : Mx) (h : MxInv m) (u v : Nat) :
+    NoUB (mxAddArc m u v) ∧ ∀ m', mxAddArc m u v = .ok m' → MxInv m' := mxUpdate_spec _ _ m h u v
+
+theorem mxToggle_noUB (m : Mx) (h : MxInv m) (u v : Nat) :
+    NoUB (mxToggle m u v) ∧ ∀ m', mxToggle m u v = .ok m' → MxInv m' := mxUpdate_spec _ _ m h u v
+
+theorem mxHasArc_never_fails (m : Mx) (h : MxInv m) (u v : Nat) : ∃ b, mxHasArc m u v = .ok b :=
+  mxHasArc_total m h u v
+
+theorem mxRemoveArc_never_fails (m : Mx) (h : MxInv m) (u v : Nat) :
+    ∃ b m', mxRemoveArc m u v = .ok (b, m') ∧ MxInv m' := mxRemoveArc_total m h u v
+
+theorem mxArcsIterator_noUB (m : Mx) (fuel : Nat) (it : MxIt) : NoUB (mxArcsNext m fuel it) :=
+  mxArcsNext_noUB m fuel it
+
+/-- `empty(2^32)`: the repaired code panics; the pinned code (release profile: the product wraps
+to 0) returns a matrix with no blocks, and `add_arc(0, 1)` then writes out of bounds. -/
+example : mxEmpty (2 ^ 32) = .error .panic := by decide
+example : (mxEmptyPinned (2 ^ 32) >>= fun m => mxAddArc m 0 1)
+    = .error (.ub "adjacency_matrix/mod.rs:add_arc:get_unchecked_mut(i >> 6)") := by decide
+example : ((mxEmpty 9 >>= fun m => mxAddArc m 8 7) >>= fun m => mxHasArc m 8 7) = .ok true := by decide
+example : (mxEmpty 9 >>= fun m => mxAddArc m 8 9) = .error .panic := by decide
+
+/-! ## P1: the derived entry points of the traversals (for every digraph view, source list, fuel) -/
+
+theorem bfsDist_distances_noUB (g : CGraph) (sources : List Nat) (fuel : Nat) :
+    NoUB (bfsDistNew g.order sources >>= bfsDistDistances g fuel) := bfsDistDistances_noUB g sources fuel
+theorem bfsPred_predecessors_noUB (g : CGraph) (sources : List Nat) (fuel : Nat) :
+    NoUB (bfsPredNew g.order sources >>= bfsPredPredecessors g fuel) := bfsPredPredecessors_noUB g sources fuel
+theorem bfsPred_shortestPath_noUB (g : CGraph) (sources : List Nat) (isT : Nat → Bool) (fuel : Nat) :
+    NoUB (bfsPredNew g.order sources >>= bfsPredShortestPath g isT fuel) := bfsPredShortestPath_noUB g sources isT fuel
+theorem bfsPred_cycles_noUB (g : CGraph) (sources : List Nat) (fuel : Nat) :
+    NoUB (bfsPredNew g.order sources >>= bfsPredCycles g fuel) := bfsPredCycles_noUB g sources fuel
+theorem dfsPred_predecessors_noUB (g : CGraph) (sources : List Nat) (fuel : Nat) :
+    NoUB (dfsPredPredecessors g fuel (dfsPredNew g.order sources)) := dfsPredPredecessors_noUB g sources fuel
+theorem dijkstraDist_distances_noUB (g : WCGraph) (sources : List Nat) (fuel : Nat) :
+    NoUB (dijkstraDistNew g.order sources >>= dijkstraDistDistances g fuel) := dijkstraDistDistances_noUB g sources fuel
+theorem dijkstraPred_predecessors_noUB (g : WCGraph) (sources : List Nat) (fuel : Nat) :
+    NoUB (dijkstraPredNew g.order sources >>= dijkstraPredPredecessors g fuel) := dijkstraPredPredecessors_noUB g sources fuel
+theorem dijkstraPred_shortestPath_noUB (g : WCGraph) (sources : List Nat) (isT : Nat → Bool) (fuel : Nat) :
+    NoUB (dijkstraPredNew g.order sources >>= dijkstraPredShortestPath g isT fuel) :=
+  dijkstraPredShortestPath_noUB g sources isT fuel
+
+/-! ## P1: `DistanceMatrix::new` — `set_len(n)` is followed by exactly `n` writes -/
+
+theorem distanceMatrixNew_noUB (order inf : Nat) :
+    NoUB (dmNew order inf) ∧
+    ∀ r, dmNew order inf = .ok r → r.length = order * order ∧ ∀ j, j < order * order → r[j]? = some (some inf) :=
+  dmNew_spec order inf
+
+example : dmNew 2 7 = .ok [some 7, some 7, some 7, some 7] := by decide
+example : dmNew (2 ^ 32) 7 = .error .panic := by decide
+
+/-! ## P1: `AdjacencyList` — accesses indexed by a loop variable (arbitrary rows, every thread count) -/
+
+theorem adjList_addArc_noUB (rows : Rows) (u v : Nat) : NoUB (alAddArc rows u v) := alAddArc_noUB rows u v
+theorem adjList_outNeighbors_noUB (rows : Rows) (u : Nat) : NoUB (alOutNeighbors rows u) := alOutNeighbors_noUB rows u
+theorem adjList_arcsIterator_noUB (rows : Rows) (fuel : Nat) (it : AlArcsIt) : NoUB (alArcsNext rows fuel it) :=
+  alArcsNext_noUB rows fuel it
+theorem adjList_inNeighborsIterator_noUB (rows : Rows) (v fuel i : Nat) : NoUB (alInNeighborsNext rows v fuel i) :=
+  alInNeighborsNext_noUB rows v fuel i
+theorem hasWalk_noUB (site : String) (hasArc : Nat → Nat → Bool) (walk : List Nat) : NoUB (hasWalkPtr site hasArc walk) :=
+  hasWalkPtr_noUB site hasArc walk
+theorem adjList_isTournament_noUB (rows : Rows) : NoUB (alIsTournament rows) := alIsTournament_noUB rows
+theorem adjList_isSemicomplete_noUB (rows : Rows) (t : Nat) : NoUB (alIsSemicomplete rows t) := alIsSemicomplete_noUB rows t
+theorem adjList_randomTournament_noUB (order : Nat) (coin : Nat → Nat → Bool) : NoUB (alRandomTournament order coin) :=
+  alRandomTournament_noUB order coin
+theorem mergeTwoSorted_noUB' (site : String) (lhs rhs : List Nat) : NoUB (mergeTwoSorted site lhs rhs) :=
+  mergeTwoSorted_noUB site lhs rhs
+theorem adjList_union_noUB (a b : Rows) (t : Nat) : NoUB (alUnion a b t) := alUnion_noUB a b t
+theorem adjList_complement_noUB (rows : Rows) (t : Nat) : NoUB (alComplement rows t) := alComplement_noUB rows t
+
+/-- The worker ranges tile `0..n` for every thread count: `union` writes every slot exactly once,
+`complement` produces every row exactly once (no slot twice, none missing, none outside). -/
+theorem chunks_tile (n t : Nat) (ht : 0 < t) (hn : 0 < n) : expandRanges (threadRanges n t) = List.range n :=
+  GraafVerif.Chk.chunks_tile n t ht hn
+theorem steps_tile (n chunk : Nat) (hc : 0 < chunk) : expandRanges (stepRanges n chunk) = List.range n :=
+  GraafVerif.Chk.steps_tile n chunk hc
+
+/-! ## P1: `AdjacencyList` — accesses indexed by a SUCCESSOR, under the representation invariant -/
+
+theorem adjList_converse_noUB (rows : Rows) (h : RowsWF rows) : NoUB (alConverse rows) := alConverse_noUB rows h
+theorem adjList_indegreeSequence_noUB (rows : Rows) (h : RowsWF rows) : NoUB (alIndegreeSequence rows) :=
+  alIndegreeSequence_noUB rows h
+theorem adjList_degreeSequence_noUB (rows : Rows) (h : RowsWF rows) (t : Nat) : NoUB (alDegreeSequence rows t) :=
+  alDegreeSequence_noUB rows h t
+
+example : RowsWF [[1], [0, 2], []] := by unfold RowsWF; decide
+example : alConverse [[1], [0, 2], []] = .ok [[1], [0], [1]] := by decide
+/-- without the invariant the model does reach UB: the hypothesis is not decoration -/
+example : alConverse [[5], []] = .error (.ub "adjacency_list/mod.rs:converse:conv_ptr.add(v)") := by decide
+
+/-! ## P1: `AdjacencyMap` -/
+
+theorem adjMap_outNeighbors_noUB (m : List (Nat × List Nat)) (u : Nat) : NoUB (amOutNeighbors m u) := amOutNeighbors_noUB m u
+theorem adjMap_randomTournament_noUB (order t : Nat) (coin : Nat → Nat → Bool) : NoUB (amRandomTournament order t coin) :=
+  amRandomTournament_noUB order t coin
+theorem findPartition_noUB (r : Nat) (lhs rhs : List Nat) :
+    NoUB (findPartition r lhs rhs) ∧
+    ∀ res, findPartition r lhs rhs = .ok res → r ≤ lhs.length + rhs.length →
+      res.1 ≤ lhs.length ∧ res.2 ≤ rhs.length ∧ res.1 + res.2 = r := findPartition_spec r lhs rhs
+/-- spatial safety of `AdjacencyMap::union` for ARBITRARY key vectors and every thread count -/
+theorem adjMap_union_noUB (lhs rhs : List Nat) (t : Nat) : NoUB (amUnionReads lhs rhs t) := amUnionReads_noUB lhs rhs t
+/-- linearity of the `ptr::read`s from monotone boundaries (`mapUnion_linear`) -/
+theorem mapUnion_linear (lhs rhs : List Nat) (bs : List (Nat × Nat)) (t : Nat)
+    (hok : BoundariesOK bs lhs.length rhs.length t) :
+    amUnionWorkers lhs rhs bs t = .ok (List.range lhs.length, List.range rhs.length) :=
+  amUnionWorkers_linear lhs rhs bs t hok
+
+/-- `find_partition` is a merge-path search: for strictly ascending key vectors (what iterating a
+`BTreeMap` yields) its boundaries are monotone and span `(0,0) … (n1,n2)`. -/
+theorem findPartition_monotone (lhs rhs : List Nat) (t : Nat) (bs : List (Nat × Nat)) (hl : lhs.Pairwise (· < ·))
+    (hr : rhs.Pairwise (· < ·)) (ht : 0 < t) (h : amBoundaries lhs rhs t = .ok bs) :
+    BoundariesOK bs lhs.length rhs.length t := amBoundaries_ok lhs rhs t bs hl hr ht h
+/-- Hence, for every two maps and EVERY thread count, `union` moves every entry of `lhs_vec` and of
+`rhs_vec` out exactly once: the `set_len(0)` that follows neither leaks nor double frees. -/
+theorem mapUnion_linear_sorted (lhs rhs : List Nat) (t : Nat) (hl : lhs.Pairwise (· < ·)) (hr : rhs.Pairwise (· < ·))
+    (ht : 0 < t) : amUnionReads lhs rhs t = .ok (List.range lhs.length, List.range rhs.length) :=
+  amUnionReads_linear lhs rhs t hl hr ht
+
+example : amUnionReads [0, 1, 2, 3, 4] [0, 1, 2, 3, 4, 5, 6] 16 = .ok (List.range 5, List.range 7) := by decide
+example : amUnionReads [0, 5] [2, 5, 9] 3 = .ok ([0, 1], [0, 1, 2]) := by decide
+
+/-! ## P1: `BellmanFordMoore`, `FloydWarshall`, `Xoshiro256StarStar` -/
+
+theorem bellmanFordMoore_noUB (order s : Nat) (arcs : List (Nat × Nat × Int)) (h : ArcsWF order arcs) :
+    NoUB (bfmNew order s >>= bfmDistances order arcs) := bfm_noUB order s arcs h
+theorem floydWarshall_noUB (order : Nat) (arcs : List (Nat × Nat × Int)) (h : ArcsWF order arcs) (dist : List Int)
+    (hd : dist.length = order * order) : NoUB (fwDistances order arcs dist) := fwDistances_noUB order arcs h dist hd
+theorem xoshiro_noUB (state : List Nat) (h : state.length = 4) : NoUB (xoshiroTouch state) := xoshiroTouch_noUB state h
+
+example : (bfmNew 3 0 >>= bfmDistances 3 [(0, 1, 4), (1, 2, -2), (0, 2, 5)]) = .ok (some [0, 4, 2]) := by decide
+example : bfmNew 3 3 = .error .panic := by decide
+
+/-! ## P1: `Johnson75` — every index into the B-lists is a vertex below `b.len()` -/
+
+/-- For every vertex set (the assert rejects the non-contiguous ones), every sequence of components
+of it (vertex lists closed under their own `out_neighbors`) and every fuel. -/
+theorem johnson75_noUB (order : Nat) (verts : List Nat) (comps : List JComp) (uf cf : Nat)
+    (hc : ∀ c ∈ comps, JCompOK verts c) : NoUB (jCircuits order verts comps uf cf) :=
+  jCircuits_noUB order verts comps uf cf hc
+
+def twoCycle : JComp := ⟨[0, 1], fun u => if u == 0 then some [1] else if u == 1 then some [0] else none, 0⟩
+example : jCircuits 2 [0, 1] [twoCycle] 10 10 = .ok [[0, 1]] := by decide
+example : jCircuits 2 [0, 5] [] 10 10 = .error .panic := by decide   -- V = {0,5}: "vertices aren't contiguous"
+
+/-! ## The full statement and what of it is proved
+
+`Statement` is the logical core of C13 as far as a theorem can express it; the runtime half
+(no heap growth, no use-after-free through `std`, no data race, faithfulness of the models) is
+NOT a theorem: see `props/C13.json` (`open_statements`) and docs/C13.md. -/
+
+/-- Every modelled entry point, for every argument, never reaches a violated unchecked access. -/
+def Statement : Prop :=
+  -- traversals: constructors, `next` in every reachable state, derived entry points
+  (∀ (g : CGraph) (src : List Nat),
+      IterSafe (bfsNew g.order src) (bfsNext g) ∧ IterSafe (bfsDistNew g.order src) (bfsDistNext g) ∧
+      IterSafe (bfsPredNew g.order src) (bfsPredNext g) ∧ IterSafe (pure (dfsNew g.order src)) (dfsNext g) ∧
+      IterSafe (pure (dfsDistNew g.order src)) (dfsDistNext g) ∧ IterSafe (pure (dfsPredNew g.order src)) (dfsPredNext g)) ∧
+  (∀ (g : WCGraph) (src : List Nat),
+      IterSafe (dijkstraNew g.order src) (dijkstraNext g) ∧ IterSafe (dijkstraDistNew g.order src) (dijkstraDistNext g) ∧
+      IterSafe (dijkstraPredNew g.order src) (dijkstraPredNext g)) ∧
+  -- user-built predecessor trees
+  (∀ pred s isT, NoUB (searchByChk pred s isT)) ∧
+  -- the matrix: from `empty`, through any sequence of `add_arc` / `toggle`, for all arguments
+  (∀ order, NoUB (mxEmpty order) ∧ ∀ m, mxEmpty order = .ok m → MxInv m) ∧
+  (∀ m, MxInv m → ∀ u v, NoUB (mxAddArc m u v) ∧ NoUB (mxToggle m u v) ∧
+      (∀ m', mxAddArc m u v = .ok m' → MxInv m') ∧ (∀ m', mxToggle m u v = .ok m' → MxInv m') ∧
+      (∃ b, mxHasArc m u v = .ok b) ∧ ∃ b m', mxRemoveArc m u v = .ok (b, m') ∧ MxInv m') ∧
+  -- allocation discipline
+  (∀ order inf r, dmNew order inf = .ok r → ∀ j, j < order * order → r[j]? = some (some inf)) ∧
+  (∀ lhs rhs bs t, BoundariesOK bs lhs.length rhs.length t →
+      amUnionWorkers lhs rhs bs t = .ok (List.range lhs.length, List.range rhs.length)) ∧
+  -- the boundaries `find_partition` computes for strictly ascending key vectors ARE monotone
+  (∀ lhs rhs t bs, lhs.Pairwise (· < ·) → rhs.Pairwise (· < ·) → 0 < t → t ≤ lhs.length + rhs.length →
+      amBoundaries lhs rhs t = .ok bs → BoundariesOK bs lhs.length rhs.length t)
+
+/-- Everything of `Statement` except its last conjunct (kept as a lemma of `statement`). -/
+theorem statement_partial :
+    (∀ (g : CGraph) (src : List Nat),
+      IterSafe (bfsNew g.order src) (bfsNext g) ∧ IterSafe (bfsDistNew g.order src) (bfsDistNext g) ∧
+      IterSafe (bfsPredNew g.order src) (bfsPredNext g) ∧ IterSafe (pure (dfsNew g.order src)) (dfsNext g) ∧
+      IterSafe (pure (dfsDistNew g.order src)) (dfsDistNext g) ∧ IterSafe (pure (dfsPredNew g.order src)) (dfsPredNext g)) ∧
+    (∀ (g : WCGraph) (src : List Nat),
+      IterSafe (dijkstraNew g.order src) (dijkstraNext g) ∧ IterSafe (dijkstraDistNew g.order src) (dijkstraDistNext g) ∧
+      IterSafe (dijkstraPredNew g.order src) (dijkstraPredNext g)) ∧
+    (∀ pred s isT, NoUB (searchByChk pred s isT)) ∧
+    (∀ order, NoUB (mxEmpty order) ∧ ∀ m, mxEmpty order = .ok m → MxInv m) ∧
+    (∀ m, MxInv m → ∀ u v, NoUB (mxAddArc m u v) ∧ NoUB (mxToggle m u v) ∧
+      (∀ m', mxAddArc m u v = .ok m' → MxInv m') ∧ (∀ m', mxToggle m u v = .ok m' → MxInv m') ∧
+      (∃ b, mxHasArc m u v = .ok b) ∧ ∃ b m', mxRemoveArc m u v = .ok (b, m') ∧ MxInv m') ∧
+    (∀ order inf r, dmNew order inf = .ok r → ∀ j, j < order * order → r[j]? = some (some inf)) ∧
+    (∀ lhs rhs bs t, BoundariesOK bs lhs.length rhs.length t →
+      amUnionWorkers lhs rhs bs t = .ok (List.range lhs.length, List.range rhs.length)) :=
+  ⟨fun g src => ⟨bfs_noUB g src, bfsDist_noUB g src, bfsPred_noUB g src, dfs_noUB g src, dfsDist_noUB g src, dfsPred_noUB g src⟩,
+   fun g src => ⟨dijkstra_noUB g src, dijkstraDist_noUB g src, dijkstraPred_noUB g src⟩,
+   searchBy_noUB,
+   fun order => ⟨(mxEmpty_spec order).1, fun m h => ((mxEmpty_spec order).2 m h).1⟩,
+   fun m h u v => ⟨(mxAddArc_noUB m h u v).1, (mxToggle_noUB m h u v).1, (mxAddArc_noUB m h u v).2, (mxToggle_noUB m h u v).2,
+     mxHasArc_total m h u v, mxRemoveArc_total m h u v⟩,
+   fun order inf r h => ((dmNew_spec order inf).2 r h).2,
+   mapUnion_linear⟩
+
+/-- The full `Statement`. -/
+theorem statement : Statement := by
+  obtain ⟨a, b, c, d, e, f, g⟩ := statement_partial
+  exact ⟨a, b, c, d, e, f, g, fun lhs rhs t bs hl hr ht _ h => findPartition_monotone lhs rhs t bs hl hr ht h⟩
+
+end GraafVerif.C13
